@@ -24,14 +24,15 @@ VARIABLES cst,     \* client status
           sepoch,  \* server session counter
           sin,     \* server: received per channel, sequence of <<peer, epoch, n>>
           sout,    \* server: outgoing, sequence of <<peer, chan, epoch, n>>
+          cdirty,  \* client: the backend has written connection statistics (`stats_mut`) in this session
           n,       \* next message number (distinguishable payloads)
           ops      \* history: sequence of records
 
-vars == <<cst, cepoch, cin, cout, run, sepoch, sin, sout, n, ops>>
-View == <<cst, cin, cout, run, sin, sout, Len(ops)>>
+vars == <<cst, cepoch, cin, cout, cdirty, run, sepoch, sin, sout, n, ops>>
+View == <<cst, cin, cout, cdirty, run, sin, sout, Len(ops)>>
 
 Init == /\ cst = "Disconnected" /\ cepoch = 0
-        /\ cin = [c \in Chan |-> <<>>] /\ cout = <<>>
+        /\ cin = [c \in Chan |-> <<>>] /\ cout = <<>> /\ cdirty = FALSE
         /\ run = FALSE /\ sepoch = 0
         /\ sin = [c \in Chan |-> <<>>] /\ sout = <<>>
         /\ n = 1 /\ ops = <<>>
@@ -49,6 +50,7 @@ CSetStatus(s) ==
                    \/ (Impl = "KeepOnConnecting" /\ s = "Connecting")
        IN /\ cin' = IF keep THEN cin ELSE [c \in Chan |-> <<>>]
           /\ cout' = IF keep THEN cout ELSE <<>>
+          /\ cdirty' = IF keep THEN cdirty ELSE FALSE
     /\ cst' = s
     /\ cepoch' = IF s = "Connected" /\ cst # "Connected" THEN cepoch + 1 ELSE cepoch
     /\ Op([op |-> "c_status", s |-> s])
@@ -59,26 +61,33 @@ CSend(c) ==
     /\ cout' = IF cst = "Connected" THEN Append(cout, <<c, cepoch, n>>) ELSE cout
     /\ n' = n + 1
     /\ Op([op |-> "c_send", ch |-> c, n |-> n])
-    /\ UNCHANGED <<cst, cepoch, cin, run, sepoch, sin, sout>>
+    /\ UNCHANGED <<cst, cepoch, cin, cdirty, run, sepoch, sin, sout>>
 
 CInsert(c) ==
     /\ More
     /\ cin' = IF cst = "Connected" THEN [cin EXCEPT ![c] = Append(@, <<cepoch, n>>)] ELSE cin
     /\ n' = n + 1
     /\ Op([op |-> "c_insert", ch |-> c, n |-> n])
-    /\ UNCHANGED <<cst, cepoch, cout, run, sepoch, sin, sout>>
+    /\ UNCHANGED <<cst, cepoch, cout, cdirty, run, sepoch, sin, sout>>
+
+\* the backend updates the connection statistics (it does so only while connected)
+CStat ==
+    /\ More /\ cst = "Connected" /\ ~cdirty
+    /\ cdirty' = TRUE
+    /\ Op([op |-> "c_stat"])
+    /\ UNCHANGED <<cst, cepoch, cin, cout, run, sepoch, sin, sout, n>>
 
 CDrain ==
     /\ More /\ cout # <<>>
     /\ cout' = <<>>
     /\ Op([op |-> "c_drain", got |-> [i \in 1..Len(cout) |-> <<cout[i][1], cout[i][3]>>]])
-    /\ UNCHANGED <<cst, cepoch, cin, run, sepoch, sin, sout, n>>
+    /\ UNCHANGED <<cst, cepoch, cin, cdirty, run, sepoch, sin, sout, n>>
 
 CReceive(c) ==
     /\ More /\ cin[c] # <<>>
     /\ cin' = [cin EXCEPT ![c] = <<>>]
     /\ Op([op |-> "c_receive", ch |-> c, got |-> [i \in 1..Len(cin[c]) |-> cin[c][i][2]]])
-    /\ UNCHANGED <<cst, cepoch, cout, run, sepoch, sin, sout, n>>
+    /\ UNCHANGED <<cst, cepoch, cout, cdirty, run, sepoch, sin, sout, n>>
 
 (* ---------------------------------- server ---------------------------------- *)
 SSetRunning(b) ==
@@ -89,21 +98,21 @@ SSetRunning(b) ==
     /\ run' = b
     /\ sepoch' = IF b /\ ~run THEN sepoch + 1 ELSE sepoch
     /\ Op([op |-> "s_running", b |-> b])
-    /\ UNCHANGED <<cst, cepoch, cin, cout, n>>
+    /\ UNCHANGED <<cst, cepoch, cin, cout, cdirty, n>>
 
 SSend(p, c) ==
     /\ More
     /\ sout' = IF run THEN Append(sout, <<p, c, sepoch, n>>) ELSE sout
     /\ n' = n + 1
     /\ Op([op |-> "s_send", peer |-> p, ch |-> c, n |-> n])
-    /\ UNCHANGED <<cst, cepoch, cin, cout, run, sepoch, sin>>
+    /\ UNCHANGED <<cst, cepoch, cin, cout, cdirty, run, sepoch, sin>>
 
 SInsert(p, c) ==
     /\ More
     /\ sin' = IF run THEN [sin EXCEPT ![c] = Append(@, <<p, sepoch, n>>)] ELSE sin
     /\ n' = n + 1
     /\ Op([op |-> "s_insert", peer |-> p, ch |-> c, n |-> n])
-    /\ UNCHANGED <<cst, cepoch, cin, cout, run, sepoch, sout>>
+    /\ UNCHANGED <<cst, cepoch, cin, cout, cdirty, run, sepoch, sout>>
 
 SRemove(p) ==
     /\ More
@@ -113,23 +122,23 @@ SRemove(p) ==
        IN /\ sin' = [c \in Chan |-> Filter(sin[c], NotP)]
           /\ sout' = Filter(sout, NotP)
     /\ Op([op |-> "s_remove", peer |-> p])
-    /\ UNCHANGED <<cst, cepoch, cin, cout, run, sepoch, n>>
+    /\ UNCHANGED <<cst, cepoch, cin, cout, cdirty, run, sepoch, n>>
 
 SDrain ==
     /\ More /\ sout # <<>>
     /\ sout' = <<>>
     /\ Op([op |-> "s_drain", got |-> [i \in 1..Len(sout) |-> <<sout[i][1], sout[i][2], sout[i][4]>>]])
-    /\ UNCHANGED <<cst, cepoch, cin, cout, run, sepoch, sin, n>>
+    /\ UNCHANGED <<cst, cepoch, cin, cout, cdirty, run, sepoch, sin, n>>
 
 SReceive(c) ==
     /\ More /\ sin[c] # <<>>
     /\ sin' = [sin EXCEPT ![c] = <<>>]
     /\ Op([op |-> "s_receive", ch |-> c, got |-> [i \in 1..Len(sin[c]) |-> <<sin[c][i][1], sin[c][i][3]>>]])
-    /\ UNCHANGED <<cst, cepoch, cin, cout, run, sepoch, sout, n>>
+    /\ UNCHANGED <<cst, cepoch, cin, cout, cdirty, run, sepoch, sout, n>>
 
 ClientNext == \/ \E s \in Status : CSetStatus(s)
               \/ \E c \in Chan : CSend(c) \/ CInsert(c) \/ CReceive(c)
-              \/ CDrain
+              \/ CDrain \/ CStat
 ServerNext == \/ \E b \in BOOLEAN : SSetRunning(b)
               \/ \E p \in Peer, c \in Chan : SSend(p, c) \/ SInsert(p, c)
               \/ \E p \in Peer : SRemove(p)
@@ -146,6 +155,7 @@ Range(s) == {s[i] : i \in 1..Len(s)}
 \* C09: no buffered message while there is no connection, none from an ended session
 CleanClient ==
     /\ cst # "Connected" => cout = <<>> /\ \A c \in Chan : cin[c] = <<>>
+    /\ cst # "Connected" => ~cdirty
     /\ \A m \in Range(cout) : m[2] = cepoch
     /\ \A c \in Chan : \A m \in Range(cin[c]) : m[1] = cepoch
 CleanServer ==
@@ -162,7 +172,7 @@ Inv == CleanClient /\ CleanServer /\ FifoAll
 
 \* one line per complete behaviour for the replay on the real resources
 Export == Len(ops) = MaxOps =>
-    PrintT(<<"BUF", ToJson([ops |-> ops,
+    PrintT(<<"BUF", ToJson([ops |-> ops, cdirty |-> cdirty,
                             cin |-> [c \in Chan |-> [i \in 1..Len(cin[c]) |-> cin[c][i][2]]],
                             cout |-> [i \in 1..Len(cout) |-> <<cout[i][1], cout[i][3]>>],
                             sin |-> [c \in Chan |-> [i \in 1..Len(sin[c]) |-> <<sin[c][i][1], sin[c][i][3]>>]],
